@@ -23,11 +23,14 @@ theorem segmentation_independent (a : Agg φ κ) (s₀ : List (Doc φ κ)) (rest
 ```
 
 What is proved is `segmentation_independent_partial`: the same equation under the decidable
-hypothesis `a.safe` on the *request* — no terms `size`, terms/histogram `min_doc_count ≤ 1`, no
-rare_terms node, composite histogram sources over f64 columns — i.e. exactly the requests on
-which `TermsCollector::finish` / `RareTermsCollector::finish` / `HistogramCollector::finish`
+hypothesis `a.safe` on the *request* — no terms `size`, terms/histogram/date_histogram
+`min_doc_count ≤ 1`, no rare_terms node, no top_hits node, composite histogram sources over f64
+columns — i.e. exactly the requests on which `TermsCollector::finish` /
+`RareTermsCollector::finish` / `HistogramCollector::finish` / `DateHistogramCollector::finish`
 cannot drop, per segment, something the merged counts would keep, and on which the composite
-collector reads the column.  Tie to the code: `Drv/C12` runs `run` and `Spec.agg`; the harness
+collector reads the column.  (top_hits is modelled and differentially checked; with `from = 0`
+it is exact, but the top-k merge lemma is not proved here, so the node is outside `safe`; with
+`from > 0` it is wrong: `top_hits_from_per_segment`.)  Tie to the code: `Drv/C12` runs `run` and `Spec.agg`; the harness
 compares `run` with the implementation on every segment layout and `Spec.agg` with an
 independent Rust computation.
 -/
@@ -82,6 +85,7 @@ theorem collect_append (h : StrictTotal (KOrd.lt (κ := κ))) :
     simp only [collect, merge, List.flatMap_append, ← vals_append]
   | .ranks f m ts, _, xs, ys => by
     simp only [collect, merge, List.flatMap_append, ← vals_append]
+  | .topHits _ _ _, hs, _, _ => by simp [Agg.safe] at hs
   | .bucket b subs, hs, xs, ys => by
     simp only [Agg.safe, Bool.and_eq_true] at hs
     obtain ⟨hb, hsub⟩ := hs
@@ -116,6 +120,7 @@ theorem finalize_collect (h : StrictTotal (KOrd.lt (κ := κ))) :
   | .cardNum f m, _, docs => by simp only [collect, finalize, Spec.agg]
   | .percentiles f m ps, _, docs => by simp only [collect, finalize, Spec.agg]
   | .ranks f m ts, _, docs => by simp only [collect, finalize, Spec.agg]
+  | .topHits _ _ _, hs, _ => by simp [Agg.safe] at hs
   | .bucket b subs, hs, docs => by
     simp only [Agg.safe, Bool.and_eq_true] at hs
     obtain ⟨hb, hsub⟩ := hs
@@ -133,6 +138,7 @@ theorem finalize_collect (h : StrictTotal (KOrd.lt (κ := κ))) :
         rfl
       | rare _ _ _ => simp [BSpec.safe] at hb
       | hist _ _ _ _ _ _ _ => rfl
+      | dhist _ _ _ _ _ _ _ => rfl
       | range _ _ _ => simp only [BSpec.minOf, filter_keepMin_zero]; rfl
       | filter _ => simp only [BSpec.minOf, filter_keepMin_zero]; rfl
       | composite _ _ _ => simp only [BSpec.minOf, filter_keepMin_zero]; rfl
@@ -210,6 +216,7 @@ theorem merge_comm (h : StrictTotal (KOrd.lt (κ := κ))) :
   | .ranks f m ts, _, xs, ys => by
     simp only [collect, merge]
     rw [sortBy_perm ratLt_strictTotal List.perm_append_comm]
+  | .topHits _ _ _, hs, _, _ => by simp [Agg.safe] at hs
   | .bucket b subs, hs, xs, ys => by
     simp only [Agg.safe, Bool.and_eq_true] at hs
     obtain ⟨hb, hsub⟩ := hs
@@ -301,6 +308,27 @@ theorem composite_histogram_i64_empty :
     let a : Agg Unit Nat := .bucket (.composite [.hist () 5 false] 10 none) .nil
     (run a [[ndoc 0 [7]]]).map counts = some [] ∧
     counts (Spec.agg a [ndoc 0 [7]]) = [(Key.parts [Part.num 5], 1)] := by
+  decide +kernel
+
+/-- date_histogram (calendar day) `min_doc_count = 2`: two values of the same day in different
+segments -/
+theorem date_histogram_min_doc_count_per_segment :
+    let a : Agg Unit Nat := .bucket (.dhist () (.calendar .day) 0 2 none none none) .nil
+    (run a [[ndoc 0 [3600000]], [ndoc 1 [7200000]]]).map counts = some [] ∧
+    counts (Spec.agg a [ndoc 0 [3600000], ndoc 1 [7200000]]) = [(Key.num 0, 2)] := by
+  decide +kernel
+
+def hitIds {κ : Type} : Node κ → List Nat
+  | .hits _ hs => hs.map (·.2)
+  | _ => []
+
+/-- top_hits `from = 1, size = 1`, ascending by the value: documents 0,1 | 2,3.  Every segment
+skips its own best hit, the merge skips once more: the mechanism returns document 3, the
+reference (second best overall) document 1 -/
+theorem top_hits_from_per_segment :
+    let a : Agg Unit Nat := .topHits 1 1 [((), false)]
+    (run a [[ndoc 0 [1], ndoc 1 [2]], [ndoc 2 [3], ndoc 3 [4]]]).map hitIds = some [3] ∧
+    hitIds (Spec.agg a [ndoc 0 [1], ndoc 1 [2], ndoc 2 [3], ndoc 3 [4]]) = [1] := by
   decide +kernel
 
 /-! ## non-vacuity: safe requests exist at depth 3 and the theorem computes on them -/
